@@ -12,3 +12,20 @@ def gen_meta_docs():
     for pad in (0, 1, 100, 1000, 1023, 1024, 1025, 2048, 4096, 8192, 65536, 100000):
         yield ({'body': b'<!-- ' + b'x' * pad + b' -->' + META, 'default_encoding': 'utf-8'}, {})
     yield ({'body': b'<html>no meta</html>', 'default_encoding': 'latin-1'}, {})
+
+
+def read_xml_encoding(body):
+    from chameleon.utils import read_xml_encoding as f
+    return f(body)
+
+
+def gen_xml_decls():
+    decls = [b'<?xml version="1.0"?>', b'<?xml version="1.0" encoding="latin-1"?>',
+             b"<?xml version='1.0' encoding = 'utf-8' ?>", b'<?xml?>', b'<?xml version="1.0"',
+             b'<?xmlencoding="koi8-r"?>']
+    rests = [b'<p>x</p>', b'<p encoding="cp1251">x</p>', b'\n<a b="?>" encoding=\'shift_jis\'/>',
+             b'text about encoding="utf-7" here']
+    for d in decls:
+        for r in rests:
+            yield ({'body': d + r}, {})
+    yield ({'body': b'<p encoding="latin-1"/>'}, {})
